@@ -385,8 +385,10 @@ pub fn exec_op(ctx: &Arc<Ctx>, op: &Op, caller: usize, nested: bool, local: &mut
             let ran = Arc::new(AtomicUsize::new(0));
             for j in 0..*n {
                 let r = ran.clone();
-                if j % 2 == 0 { d.desync(move |_| { rt::thread::yield_now(); rt::thread::yield_now(); r.fetch_add(1, SeqCst); }); }
-                else { drop(d.future_desync(move |_| async move { CoopYield(false).await; r.fetch_add(1, SeqCst); }.boxed())); }
+                // (under AddressSanitizer the jobs also write the value: a drop that did not wait is then a reported heap-use-after-free;
+                //  without it they leave the value alone so that a wrong crate does not corrupt the harness itself)
+                if j % 2 == 0 { d.desync(move |_v| { rt::thread::yield_now(); rt::thread::yield_now(); #[cfg(desync_verif_asan)] { *_v += 1; } r.fetch_add(1, SeqCst); }); }
+                else { drop(d.future_desync(move |_v| async move { CoopYield(false).await; #[cfg(desync_verif_asan)] { *_v += 1; } r.fetch_add(1, SeqCst); }.boxed())); }
             }
             drop(d);
             let k = ran.load(SeqCst);
